@@ -102,6 +102,17 @@ CLAIMED.update({
    technique="translation to a deep embedding + Coq evaluation over a finite domain (proof by reflection) + trace correspondence + fault enumeration on /repo",
    ref="4 (C08)"),
 })
+CLAIMED.update({
+ "C10": dict(
+   text="Tie A: translator/t1.py + t2.py regenerate, from entrypoints.validate/shacl_rules, Validator/RuleExpandRunner.__init__ and .run, the PyMini programs that flip rdflib's literal-parsing switches, register SPARQL functions and empty the id(graph)-keyed caches. "
+        "Coq decides by evaluation (2 APIs x 1280 valuations x 13 fault points, lifted) that every call, wherever it fails, leaves the switches and the function registry as a fresh process has them, proves this invariant for every history by induction, "
+        "and proves over an abstract cache/heap machine (edits, collection, allocation at reused addresses) that a call observes exactly what the same call observes in a fresh process - given that the generated constructors clear the caches (computed from the generated code), with a "
+        "machine-checked counterexample for the machine without clearing. On the real code: seeded histories in one process vs each call repeated in a one-shot process on pickled copies of the then-current graphs; global-state snapshots after every call.",
+   note="Trusted: Coq kernel + vm_compute; translators and PyMini summaries (each summary compared with the real callee); the cache/heap machine of coq/Mini/GlobalState.v is an abstraction (what a run consults = a list of nodes). "
+        "Module state outside the named anchors (meta-SHACL graph cache, logging) is covered by the fresh-process comparison only. extras/js caches not modelled (pyduktape2 absent). Holds after fix commits 6dd27bd, 03a05ca, a79422a in /repo.",
+   technique="translation to a deep embedding + Coq evaluation over a finite domain + invariant by induction over histories + fresh-process differential on /repo",
+   ref="4 (C10)"),
+})
 NOT_YET = {}
 ALL = ["C%02d" % i for i in range(1, 21)]
 REASONS = {}
